@@ -94,6 +94,8 @@ class Evaluator:
             v = self.ev(e[2], args, depth)
             if isinstance(v, tuple) and v[0] == "enum":
                 return self.discr(v)
+            if isinstance(v, tuple) and v[0] in ("bytes", "str", "list") and ("Unsize" in str(e[1]) or "Ptr" in str(e[1])):
+                return v          # &[u8; N] -> &[u8] and friends
             if isinstance(v, int):
                 to = str(e[4]) if len(e) > 4 else ""
                 if to == "u8":
@@ -106,6 +108,12 @@ class Evaluator:
                 return ("str", ast.literal_eval(e[1]))
             except Exception:
                 raise Unknown("string constant %s" % e[1])
+        if k == "constx" and isinstance(e[1], str) and e[1].startswith('b"') and "u8" in str(e[2]):
+            import ast
+            try:
+                return ("bytes", ast.literal_eval(e[1]))
+            except Exception:
+                raise Unknown("byte string constant %s" % e[1])
         if k == "cindex":
             v = self.ev(e[1], args, depth)
             if isinstance(v, tuple) and v[0] in ("bytes", "str"):
@@ -215,6 +223,10 @@ class Evaluator:
                 if short == "eq_ignore_ascii_case":
                     lo = STD_MODELS["to_ascii_lowercase"]
                     return int(lo(a) == lo(b))
+        if "<impl str>::" in name or "str::traits::" in name or "<str as" in name:
+            r = self._str_model(short, name, e, args, depth)
+            if r is not NotImplemented:
+                return r
         if short in STD_MODELS and ("u8" in name or "char" in name or "core::" in name or "std::" in name):
             v = argv()[0]
             if isinstance(v, int):
@@ -224,6 +236,95 @@ class Evaluator:
             r = self._str_model(short, name, e, args, depth)
             if r is not NotImplemented:
                 return r
+        # ---- byte-slice searches and the iterator consumers applied to their results
+        if short in ("find", "rfind") and "memmem" in name:
+            h, n = argv()
+            if isinstance(h, tuple) and h[0] == "bytes" and isinstance(n, tuple) and n[0] in ("bytes", "str"):
+                nb = n[1].encode() if n[0] == "str" else n[1]
+                i = h[1].find(nb) if short == "find" else h[1].rfind(nb)
+                return ("opt", None if i < 0 else i)
+            raise Unknown("memmem on unknown data")
+        if short in ("memchr", "memrchr") and "memchr" in name:
+            b, h = argv()
+            if isinstance(h, tuple) and h[0] == "bytes" and isinstance(b, int):
+                i = h[1].find(bytes([b])) if short == "memchr" else h[1].rfind(bytes([b]))
+                return ("opt", None if i < 0 else i)
+            raise Unknown("memchr on unknown data")
+        if short == "memchr_iter":
+            b, h = argv()
+            if isinstance(h, tuple) and h[0] == "bytes" and isinstance(b, int):
+                return ("list", [i for i, x in enumerate(h[1]) if x == b])
+            raise Unknown("memchr_iter on unknown data")
+        if short in ("iter", "into_iter", "copied", "cloned", "by_ref") and len(e[2]) == 1:
+            v = argv()[0]
+            if isinstance(v, tuple) and v[0] == "bytes":
+                return ("list", list(v[1]))
+            if isinstance(v, tuple) and v[0] == "list":
+                return v
+        if short == "enumerate" and len(e[2]) == 1:
+            v = argv()[0]
+            if isinstance(v, tuple) and v[0] == "list":
+                return ("list", [("tuple", [i, x]) for i, x in enumerate(v[1])])
+        if short == "windows" and len(e[2]) == 2:
+            v, n_ = argv()
+            if isinstance(v, tuple) and v[0] == "bytes" and isinstance(n_, int) and n_ > 0:
+                return ("list", [("bytes", v[1][i:i + n_]) for i in range(0, max(0, len(v[1]) - n_ + 1))])
+        if short in ("any", "all", "position", "find") and len(e[2]) == 2 and isinstance(e[2][1], tuple) and e[2][1][0] == "closure":
+            v = self.ev(e[2][0], args, depth)
+            if isinstance(v, tuple) and v[0] == "list":
+                clo = e[2][1]
+                from common import fn_of
+                cb = self.facts.body(self.crate, clo[1])
+                if cb is None:
+                    raise Unknown("closure body %s" % clo[1])
+                env = ("struct", "closure", {k_: self.ev(x, args, depth) for k_, x in (clo[2] or {}).items()})
+                outs = []
+                for i, x in enumerate(v[1]):
+                    r = self.call(fn_of(cb), [env, x], depth + 1)
+                    outs.append(r)
+                    if short == "any" and r:
+                        return 1
+                    if short == "all" and not r:
+                        return 0
+                    if short in ("position", "find") and r:
+                        return ("opt", i if short == "position" else x)
+                return {"any": 0, "all": 1}.get(short, ("opt", None))
+        if short == "get" and "[T]" in name and len(e[2]) == 2:
+            v, i = argv()
+            if isinstance(v, tuple) and v[0] == "bytes" and isinstance(i, int):
+                return ("opt", v[1][i] if 0 <= i < len(v[1]) else None)
+        if short in ("map_or", "map", "is_some_and", "and_then", "unwrap_or", "map_or_else") and "Option" in name:
+            v = self.ev(e[2][0], args, depth)
+            if isinstance(v, tuple) and v[0] == "opt":
+                def apply(clo, x):
+                    from common import fn_of
+                    if not (isinstance(clo, tuple) and clo[0] == "closure"):
+                        raise Unknown("non-closure function value")
+                    cb = self.facts.body(self.crate, clo[1])
+                    if cb is None:
+                        raise Unknown("closure body %s" % clo[1])
+                    env = ("struct", "closure", {k_: self.ev(x_, args, depth) for k_, x_ in (clo[2] or {}).items()})
+                    return self.call(fn_of(cb), [env, x], depth + 1)
+                if short == "map_or":
+                    return self.ev(e[2][1], args, depth) if v[1] is None else apply(e[2][2], v[1])
+                if short == "map":
+                    return ("opt", None) if v[1] is None else ("opt", apply(e[2][1], v[1]))
+                if short == "is_some_and":
+                    return 0 if v[1] is None else apply(e[2][1], v[1])
+                if short == "and_then":
+                    return ("opt", None) if v[1] is None else apply(e[2][1], v[1])
+                if short == "unwrap_or":
+                    return self.ev(e[2][1], args, depth) if v[1] is None else v[1]
+        if short in ("is_none", "is_some") and "Option" in name:
+            v = argv()[0]
+            if isinstance(v, tuple) and v[0] == "opt":
+                return int((v[1] is None) == (short == "is_none"))
+        if short in ("first", "last") and "[T]" in name:
+            v = argv()[0]
+            if isinstance(v, tuple) and v[0] == "bytes":
+                return ("opt", (v[1][0] if short == "first" else v[1][-1]) if v[1] else None)
+        if short == "contains" and "<impl str>" not in name and len(e[2]) == 2:
+            pass
         if short in ("eq", "ne") and ("PartialEq" in name or "PartialEq" in fnname):
             a, b = argv()
             return int((a == b) == (short == "eq"))
